@@ -14,10 +14,10 @@ for d in seeded/*/; do
   id=$(basename $d)
   [ -f $d/meta.json ] || continue
   prop=$(python3 -c "import json;m=json.load(open('$d/meta.json'));print(m.get('breaks_property') or m.get('property'))")
-  if ! git -C /tmp/mutrepo apply --check $d/patch.diff 2>/dev/null; then
+  if ! git -C /tmp/mutrepo apply --check /verif/$d/patch.diff 2>/dev/null; then
     echo "TRY id=$id prop=$prop result=PATCH-DOES-NOT-APPLY (obsolete on the repaired tree)" | tee -a seeded/SUMMARY.txt; continue
   fi
-  git -C /tmp/mutrepo apply $d/patch.diff
+  git -C /tmp/mutrepo apply /verif/$d/patch.diff
   ./check $prop --tier quick > /tmp/mutout.$id.txt 2>&1
   rc=$?
   git -C /tmp/mutrepo checkout -- .
